@@ -19,15 +19,15 @@ import (
 func init() { checks["C16"] = c16 }
 
 // vestingPools decodes every vesting pool of a state, oldest first (start time, then id).
-func vestingPools(ls []world.Leaf) []*vestingsc.VerifPool {
-	prefix := vestingsc.VerifPoolKeyPrefix()
-	var out []*vestingsc.VerifPool
+func vestingPools(ls []world.Leaf) []*vestingsc.VerifMiscPool {
+	prefix := vestingsc.VerifMiscPoolKeyPrefix()
+	var out []*vestingsc.VerifMiscPool
 	for _, l := range ls {
 		k := world.Tap.KeyOf(l.Path)
 		if !strings.HasPrefix(k, prefix) {
 			continue
 		}
-		p, err := vestingsc.VerifDecodePool(l.Value)
+		p, err := vestingsc.VerifMiscDecodePool(l.Value)
 		if err != nil {
 			ev.Fatal("vesting pool %s: %v", k, err)
 		}
@@ -81,7 +81,7 @@ func vestingMonitor(w *world.World) chainsim.Monitor {
 			}
 		}
 		now := s.Txn.CreationDate
-		pre, post := map[string]*vestingsc.VerifPool{}, map[string]*vestingsc.VerifPool{}
+		pre, post := map[string]*vestingsc.VerifMiscPool{}, map[string]*vestingsc.VerifMiscPool{}
 		for _, p := range vestingPools(s.Pre.Leaves) {
 			pre[p.ID] = p
 		}
@@ -118,7 +118,7 @@ func vestingMonitor(w *world.World) chainsim.Monitor {
 			// state invariants of the post state, reported on the transition that breaks them
 			if p1 != nil && changed {
 				need := new(big.Int)
-				pd := map[string]vestingsc.VerifDest{}
+				pd := map[string]vestingsc.VerifMiscDest{}
 				if p0 != nil {
 					for _, d := range p0.Dests {
 						pd[d.ID] = d
@@ -152,7 +152,7 @@ func vestingMonitor(w *world.World) chainsim.Monitor {
 				continue
 			}
 			// destinations of an existing pool
-			d1 := map[string]vestingsc.VerifDest{}
+			d1 := map[string]vestingsc.VerifMiscDest{}
 			if p1 != nil {
 				if p1.StartTime != p0.StartTime || p1.ExpireAt != p0.ExpireAt || p1.ClientID != p0.ClientID {
 					v("C16:schedule-or-owner-changed", fmt.Sprintf(fn+": start/expiry/owner %d/%d/%.8s -> %d/%d/%.8s", p0.StartTime, p0.ExpireAt, p0.ClientID, p1.StartTime, p1.ExpireAt, p1.ClientID))
@@ -359,7 +359,7 @@ func c16(run *ev.Run) {
 }
 
 // poolUnderfunded: the pool balance does not cover the unvested remainders (or a destination is overpaid).
-func poolUnderfunded(p *vestingsc.VerifPool) bool {
+func poolUnderfunded(p *vestingsc.VerifMiscPool) bool {
 	need := new(big.Int)
 	for _, d := range p.Dests {
 		if d.Vested > d.Amount {
